@@ -4,6 +4,7 @@
 usage: python portable_worker.py roundtrip <cases.jsonl>     C02: strict round trip of unparse() and minify(all transforms off)
        python portable_worker.py fold <cases.jsonl>          C07: evaluate folded vs unfolded expressions
        python portable_worker.py compile <cases.jsonl>       C08: compile(S) ok => minify ok and compile(out) ok ; else SyntaxError
+       python portable_worker.py taint <cases.jsonl>         C09: triggers (incl. the Python 2 exec statement) freeze every name
 
 Each line of the input is a JSON list [label, source(, options)].  Prints one JSON object.
 """
@@ -238,8 +239,89 @@ def cmd_compile(path):
     return {'checked': checked, 'skipped': skipped, 'invalid': invalid, 'violations': violations[:200]}
 
 
+# ---- C09: Python 2 exec statement (and the name triggers under this interpreter) freeze every name -------------------------------
+
+G3 = ['rename_locals', 'rename_globals', 'hoist_literals']
+REST_DEFAULT_ON = ['remove_pass', 'combine_imports', 'remove_object_base', 'convert_posargs_to_args', 'preserve_shebang',
+                   'remove_explicit_return_none', 'remove_builtin_exception_brackets', 'constant_folding']
+
+
+def run_capture(src):
+    """execute a program in a fresh namespace and return (stdout text, terminating exception type)"""
+    try:
+        from StringIO import StringIO     # Python 2: print statements write bytes
+    except ImportError:
+        from io import StringIO
+    old = sys.stdout
+    buf = StringIO()
+    sys.stdout = buf
+    exc = None
+    try:
+        try:
+            code = compile(src, '<prog>', 'exec', 0, True)
+            ns = {'__name__': '__verif__'}
+            exec(code, ns, ns)
+        except BaseException as e:
+            exc = type(e).__name__
+    finally:
+        sys.stdout = old
+    return buf.getvalue(), exc
+
+
+def cmd_taint(path):
+    """[label, source, control] : source contains a trigger; control is the same program without it.
+    For every non-empty subset g of the three renaming switches and both bases (other safe options on / everything else off):
+    minify(source, base+g) must equal minify(source, base) textually, and the output must behave like the source."""
+    import itertools
+    checked = skipped = evaluations = nontrivial = 0
+    violations = []
+    subsets = [c for k in (1, 2, 3) for c in itertools.combinations(G3, k)]
+    for rec in load(path):
+        label, src, ctrl = rec[0], rec[1], rec[2]
+        try:
+            compile(src, '<in>', 'exec', 0, True)
+        except Exception:
+            skipped += 1
+            continue
+        checked += 1
+        ref = run_capture(src)
+        for base_on in (REST_DEFAULT_ON, []):
+            base = dict(ALL_OFF)
+            for n in base_on:
+                base[n] = True
+            try:
+                expected = python_minifier.minify(src, **base)
+                ctrl_expected = python_minifier.minify(ctrl, **base)
+            except Exception as e:
+                violations.append({'label': label, 'source': src, 'sig': 'raises:%s' % type(e).__name__, 'detail': repr(e)})
+                continue
+            for g in subsets:
+                evaluations += 1
+                opts = dict(base)
+                for n in g:
+                    opts[n] = True
+                try:
+                    out = python_minifier.minify(src, **opts)
+                except Exception as e:
+                    violations.append({'label': label, 'source': src, 'sig': 'raises:%s' % type(e).__name__, 'detail': repr(e)})
+                    continue
+                try:
+                    if python_minifier.minify(ctrl, **opts) != ctrl_expected:
+                        nontrivial += 1
+                except Exception:
+                    pass
+                if out != expected:
+                    violations.append({'label': label, 'source': src, 'sig': 'names-changed:' + '+'.join(g),
+                                       'detail': 'options %s on top of %s\nexpected:\n%s\ngot:\n%s' % (list(g), base_on and 'safe defaults' or 'all off', expected, out)})
+                    got = run_capture(out)
+                    if got != ref:
+                        violations.append({'label': label, 'source': src, 'sig': 'behaviour-differs:' + '+'.join(g),
+                                           'detail': 'out:\n%s\n%r != %r' % (out, ref, got)})
+    return {'checked': checked, 'skipped': skipped, 'evaluations': evaluations, 'nontrivial': nontrivial, 'violations': violations[:200]}
+
+
 if __name__ == '__main__':
     cmd = sys.argv[1]
-    res = {'roundtrip': cmd_roundtrip, 'fold': cmd_fold, 'compile': cmd_compile}[cmd](sys.argv[2])
+    res = {'roundtrip': cmd_roundtrip, 'fold': cmd_fold, 'compile': cmd_compile, 'taint': cmd_taint}[cmd](sys.argv[2])
     res['python'] = sys.version.split()[0]
     sys.stdout.write(json.dumps(res))
